@@ -444,3 +444,64 @@ func BadNamedAlias(h *BoxHolder) *pair {
 	(*boxHolder)(h).p = nil
 	return h.p
 }
+
+// ---- a map made and used only inside the function keeps its contents across an unknown call
+
+func GoodPrivateMap(o opaqueCaller, k string) int {
+	m := make(map[string]int)
+	m[k] = 3
+	o.Do()
+	return m[k]
+}
+
+var mapSink map[string]int
+
+func BadEscapedMap(o opaqueCaller, k string) int {
+	m := make(map[string]int)
+	m[k] = 3
+	mapSink = m
+	o.Do()
+	return m[k]
+}
+
+// ---- a summarised callee that calls its function-valued parameter writes what the passed function writes
+
+func applyFn(f func()) { f() }
+
+type cellT struct{ v int }
+
+func GoodParamCall(o *cellT) int {
+	o.v = 1
+	n := 0
+	applyFn(func() { n++ })
+	return o.v
+}
+
+func BadParamCall(o *cellT) int {
+	o.v = 1
+	applyFn(func() { o.v = 2 })
+	return o.v
+}
+
+type closedIface interface {
+	touch(c *cellT)
+}
+
+type implA struct{}
+type implB struct{ w int }
+
+func (implA) touch(c *cellT)   {}
+func (b *implB) touch(c *cellT) { b.w = 7 }
+
+// every implementation of the (module-only) interface leaves cellT alone
+func GoodClosedIface(i closedIface, o *cellT) int {
+	o.v = 1
+	i.touch(o)
+	return o.v
+}
+
+func BadClosedIface(i closedIface, o *cellT, b *implB) int {
+	b.w = 1
+	i.touch(o)
+	return b.w
+}
